@@ -89,7 +89,11 @@ let run path =
       "c15_resend_first", ConnSpec5.c15_resend_first;
       "c14_lifecycle", ConnSpec5.c14_lifecycle2; "c06_forward_intact", ConnSpec5.c06_forward_intact;
       "c08_popped_is_saved", ConnSpec3.c08_popped_is_saved; "c08_pubrel_after_store", ConnSpec3.c08_pubrel_after_store;
-      "c20_tokens", ConnSpec3.c20_tokens; "c16_slots_not_lost", ConnProofsCDefs.c16_slots_not_lost2 ] in
+      "c20_tokens", ConnSpec3.c20_tokens; "c16_slots_not_lost", ConnProofsCDefs.c16_slots_not_lost2;
+      (* added by the audit (coq/Broker/ConnSpec6.v) *)
+      "c07_release_in_ack", ConnSpec6.c07_release_in_ack; "c20_acted_on", ConnSpec6.c20_acted_on;
+      "c20_closes", ConnSpec6.c20_closes; "c16_quiescent_dequeuing", ConnSpec6.c16_quiescent_dequeuing;
+      "c08_deqack_after_store", ConnSpec6.c08_deqack_after_store; "c08_store_replica", ConnSpec6.c08_store_replica ] in
     L.iter (fun (name, f) ->
       if not (f pevs) then begin
         (* shortest failing prefix = position of the offending event *)
